@@ -13,6 +13,7 @@ from z3 import *
 from pyvc.core import *
 
 PROPS = ['C01', 'C03', 'C04', 'C05']
+REPLAY = {'driver': 'og'}
 REL = 'taskiq/receiver/receiver.py'
 TRUSTED = [
     "asyncio is single-threaded and cooperative: code between two suspending awaits is atomic",
@@ -94,7 +95,8 @@ def generate(src):
          'returns only when drained or wait_tasks_timeout elapsed  [C05]': Implies(g['pcR'] == 9, Or(live == 0, And(hasT, g['tmo']))),
          'limit 1 => strictly one at a time, in delivery order  [C03]': Implies(And(hasA, A == 1), And(live <= 1, ForAll([k_], Implies(And(0 <= k_, k_ < g['started']), g['cb_msg'][k_] == k_)))),
         }
-    segments = []; conts = {}
+    segments = []; conts = {}; nested = {}; task_coro = {}
+    payload_equals_sentinel = Function('payload_equals_sentinel_bytes', IntSort(), BoolSort())
     class OG(Exec):
         def __init__(self, thread, handlers): super().__init__(handlers); self.thread = thread
         def setpc(self, st, label): st.ghost = dict(st.ghost); st.ghost['pc' + self.thread] = IntVal(PC[self.thread][label])
@@ -128,6 +130,17 @@ def generate(src):
         if args and args[0] == 'CORO_ANEXT':
             oblige(st, "prefetcher/pre@create_task(__anext__): the previous look-ahead was consumed or cancelled (single look-ahead)  [C04/C01]", g['la'] == 0, props=['C04', 'C01'], witness=wit(g), replay=RP)
             setG(st, la=IntVal(1)); return k(st, 'HANDLE_LA')
+        if args and isinstance(args[0], tuple) and args[0][0] == 'CORO_NESTED':
+            # a local wrapper coroutine around self.callback: its REAL body is executed as the end of the callback task (environment action callback_done)
+            _, nm, nargs, nkw = args[0]; fd = nested[nm]
+            calls = [c for c in ast.walk(fd) if isinstance(c, ast.Call) and ast.unparse(c.func) == 'self.callback']
+            params = [a_.arg for a_ in fd.args.args]
+            if len(calls) != 1 or not params or len(nargs) != 1 or not isinstance(nargs[0], PyInt): raise Unsupported(f"wrapper coroutine {nm}: expected exactly one self.callback(...) call on its single message parameter")
+            mk = [kw_ for kw_ in calls[0].keywords if kw_.arg == 'message']
+            if not mk or ast.unparse(mk[0].value) != params[0]: raise Unsupported(f"wrapper coroutine {nm}: self.callback is not called with the wrapper's own message")
+            rk = [kw_ for kw_ in calls[0].keywords if kw_.arg == 'raise_err']
+            task_coro['wrapper'] = fd
+            args = [('CORO_CALLBACK', nargs[0].e, ast.literal_eval(rk[0].value) if rk and isinstance(rk[0].value, ast.Constant) else False)]
         if not (args and isinstance(args[0], tuple) and args[0][0] == 'CORO_CALLBACK'): raise Unsupported("create_task of " + ast.unparse(e))
         kind, msg, raise_err = args[0]
         oblige(st, "runner/create_task(callback): the worker's own call passes raise_err=False  [C03/C07]", BoolVal(raise_err is False), props=['C03', 'C07'])
@@ -151,7 +164,12 @@ def generate(src):
         tk = [x for x in e.keywords if x.arg == 'timeout']
         oblige(st, "runner/drain: waits for the live callback tasks with timeout=self.wait_tasks_timeout  [C05]",
                BoolVal(bool(tk) and ast.unparse(tk[0].value) == 'self.wait_tasks_timeout' and len(e.args) == 1 and ast.unparse(e.args[0]) == 'tasks'), props=['C05'])
-        return k(st, Tok(lambda s, k2, K2: ex.suspend(s, 'asyncio.wait', lambda x: Or(G(x)['started'] - G(x)['done_cb'] == 0, And(hasT, G(x)['tmo'])), lambda x: None, lambda x: k2(x, None))))
+        if not (args and isinstance(args[0], PyBool)): raise Unsupported("runner waits on something other than the set of live callback tasks")
+        rw = [x for x in e.keywords if x.arg == 'return_when']
+        all_completed = not rw or ast.unparse(rw[0].value) in ('asyncio.ALL_COMPLETED', 'ALL_COMPLETED')
+        # contract of asyncio.wait: with the default ALL_COMPLETED it resumes when every task is done (or on timeout); with FIRST_COMPLETED / FIRST_EXCEPTION it may resume as soon as one task ended
+        guard = (lambda x: Or(G(x)['started'] - G(x)['done_cb'] == 0, And(hasT, G(x)['tmo']))) if all_completed else (lambda x: BoolVal(True))
+        return k(st, Tok(lambda s, k2, K2: ex.suspend(s, 'asyncio.wait', guard, lambda x: None, lambda x: k2(x, PyTuple([fresh('done_set'), fresh('pending_set')])))))
     def h_result(ex, st, e, recv, args, kw, k, K):
         g = G(st)
         oblige(st, "prefetcher/pre@current_message.result(): the look-ahead task is done  [C01]", g['la'] == 2, props=['C01'], witness=wit(g), replay=RP)
@@ -190,6 +208,13 @@ def generate(src):
         def compare(self, op, l, r, st):
             if isinstance(op, (ast.Is, ast.IsNot)) and isinstance(l, PyInt) and isinstance(r, PyInt):
                 return (l.e == r.e) if isinstance(op, ast.Is) else (l.e != r.e)
+            if isinstance(op, (ast.Eq, ast.NotEq)) and isinstance(l, PyInt) and isinstance(r, PyInt):
+                # == compares by VALUE: a broker message whose payload equals the sentinel's bytes is equal to it without being it
+                def is_sent(x): return is_int_value(simplify(x.e)) and simplify(x.e).as_long() == SENT
+                eq = l.e == r.e
+                if is_sent(r): eq = Or(eq, And(l.e >= 0, payload_equals_sentinel(l.e)))
+                elif is_sent(l): eq = Or(eq, And(r.e >= 0, payload_equals_sentinel(r.e)))
+                return eq if isinstance(op, ast.Eq) else Not(eq)
             return super().compare(op, l, r, st)
         def st_While(self, s, st, k, K):
             if ast.unparse(s.test) != 'True': raise Unsupported("while loop other than `while True` in the receiver protocol")
@@ -200,12 +225,24 @@ def generate(src):
                 K2 = dict(K); K2['brk'] = k; K2['cont'] = loop
                 r = self.block(s.body, st2, loop, K2); depth[0] -= 1; return r
             return loop(st)
-        def st_FunctionDef(self, s, st, k, K): return k(st)
+        def st_FunctionDef(self, s, st, k, K): nested[s.name] = s; return k(st)
+        def st_AsyncFunctionDef(self, s, st, k, K): nested[s.name] = s; return k(st)
+        def st_For(self, s, st, k, K):
+            # loops that only log / inspect finished tasks: allowed when the body touches none of the protocol's primitives
+            txt = ast.unparse(s)
+            if any(w in txt for w in ('self.sem', 'queue.', 'create_task', 'self.callback', 'finish_event', '.cancel()', 'break', 'return', 'await ')): raise Unsupported("for loop touching the receiver protocol: " + ast.unparse(s.iter))
+            return k(st)
+        def find_handler(self, name, recv=None):
+            if name in nested and name != 'task_cb':
+                def h_nested(ex_, st_, e, r_, args, kw, k, K): return k(st_, ('CORO_NESTED', name, args, kw))
+                return h_nested
+            return super().find_handler(name, recv)
         def _st_Try_raw(self, s, st, k, K):
-            for h in s.handlers:
+            for h in (s.handlers if self.thread != 'E' else []):
                 names = [ast.unparse(x) for x in (h.type.elts if isinstance(h.type, ast.Tuple) else [h.type])] if h.type is not None else ['<bare>']
                 if not set(names) <= {'asyncio.CancelledError', 'StopAsyncIteration'}: raise Unsupported("receiver loop handler for " + ", ".join(names))
                 if [type(x) for x in h.body] != [ast.Break]: raise Unsupported("receiver loop handler body is not `break`")
+            if self.thread == 'E': return Exec._st_Try_raw(self, s, st, k, K)
             if s.finalbody or s.orelse: raise Unsupported("try/finally in the receiver loop")
             return self.block(s.body, st, k, K)      # CancelledError / StopAsyncIteration edges: outside the graceful-stop properties (TRUSTED)
         def st_AugAssign(self, s, st, k, K):
@@ -308,7 +345,19 @@ def generate(src):
             if name == 'callback_done':
                 pc = [pre['started'] - pre['done_cb'] > 0]
                 ex = Ex('E', H); st = State(); st.ghost = dict(pre); st.ghost['cb_released'] = IntVal(0); st.env = {'self': PyObj(Int('self_a')), 'task': 'HANDLE_CB'}; res = []
-                ex.block(TASK_CB.body, st, lambda s: res.append(s), {'ret': lambda s, v: res.append(s)})
+                ends = [st]
+                if 'wrapper' in task_coro:          # the callback task's own code after self.callback(...) returned or raised: the REAL wrapper body
+                    fd = task_coro['wrapper']; ends = []
+                    def h_cb_abstract(ex_, st_, e, r_, a_, kw_, k, K):
+                        def eff(s2, k2, K2):
+                            ok = s2.fork(); k2(ok, None)
+                            f = s2.fork(); K2['exc'](f, raise_any(f, 'BaseException'))        # hooks / ack / backend are user code
+                        return k(st_, Tok(eff))
+                    exw = Ex('E', {**H, 'self.callback': h_cb_abstract}); stw = st.fork(); stw.env = dict(stw.env); stw.env[fd.args.args[0].arg] = PyInt(fresh('msg', IntSort()))
+                    exw.block(fd.body, stw, lambda s: ends.append(s), {'ret': lambda s, v: ends.append(s), 'exc': lambda s, x: ends.append(s)})
+                for st_end in ends:
+                    st_end.env = {'self': PyObj(Int('self_a')), 'task': 'HANDLE_CB'}
+                    ex.block(TASK_CB.body, st_end, lambda s: res.append(s), {'ret': lambda s, v: res.append(s)})
                 for s in res:
                     g = dict(s.ghost); g['done_cb'] = g['done_cb'] + 1
                     oblige(s, "task_cb/post: releases exactly one execution slot iff a limit is set  [C03]", g['cb_released'] == If(hasA, 1, 0), props=['C03'], witness=wit(pre), replay=RP)
